@@ -75,8 +75,10 @@ def extract_sicd(
         isorce = img_header.ISORCE.strip()
         collector_name = None if len(isorce) < 1 else isorce
 
-        iid2 = img_header.IID2.strip()
-        core_name = img_header.IID1.strip() if len(iid2) < 1 else iid2
+        # NB: the NITF 2.0 image subheader has IID / ITITLE in place of IID1 / IID2
+        iid1 = getattr(img_header, 'IID1', None) or getattr(img_header, 'IID', '')
+        iid2 = (getattr(img_header, 'IID2', None) or getattr(img_header, 'ITITLE', '')).strip()
+        core_name = iid1.strip() if len(iid2) < 1 else iid2
 
         class_str = img_header.Security.CLAS
         if class_str == 'T':
